@@ -310,7 +310,7 @@ def run(prog):
                 if sc.endswith("as Some).0") and "discr" not in sc:
                     pol = 0 if val == "0" else 1
             if fld is None or pol is None:
-                errs.append("insert at line %d not classified" % cs.line)
+                errs.append("?insert at line %d not classified" % cs.line)
                 continue
             seen += 1
             if (fld == "true_assignments") != (pol == 1):
